@@ -41,16 +41,12 @@ def Acc.append (a : Acc D) (new_leaf : D) : Option (Acc D × List D) := do
 /-- `for leaf in leafs { mmra.append(leaf); }` -/
 def Acc.appendAll : List D → Acc D → Option (Acc D)
   | [], a => some a
-  | x :: xs, a => match a.append H x with
-    | none => none
-    | some (a', _) => Acc.appendAll xs a'
+  | x :: xs, a => (a.append H x).bind (fun r => Acc.appendAll xs r.1)
 
 /-- `MmrAccumulator::new_from_leafs` -/
 def Acc.newFromLeafs : List D → Acc D → Option (Acc D)
   | [], a => some a
-  | x :: xs, a => match a.append H x with
-    | none => none
-    | some (a', _) => Acc.newFromLeafs xs a'
+  | x :: xs, a => (a.append H x).bind (fun r => Acc.newFromLeafs xs r.1)
 
 /-- the `while acc_mt_index != 1` loop shared by `MmrMembershipProof::verify` and
     `calculate_new_peaks_from_leaf_mutation`: indexes the path with `[i]` (panic when too short) -/
